@@ -1,3 +1,4 @@
 import ArroyProofs.AuditCmd
 import ArroyProofs.Properties.C19
+import ArroyProofs.Properties.C19History
 #audit Arroy.C19
